@@ -285,6 +285,9 @@ class Run:
         self.known_hits = {}       # class id -> count
         self.coverage = {}
         self.assumptions = []
+        import glob
+        for f in glob.glob(os.path.join(VERIF, "replays", pid + "-*.json")):
+            os.remove(f)
         self.rng = random.Random(seed * 1000003 + int(hashlib.sha256(pid.encode()).hexdigest()[:8], 16))
 
     def known(self, kid, what):
